@@ -267,6 +267,60 @@ def known_plateau_findings(run):
                         theorem="C05_plateau_grid")
 
 
+def scan_history_cases(run):
+    """E(delta) scans requested through compute_emodulus_mindelta /
+    estimate_optimal_mindelta before and after the number of samples is
+    changed (plateau search off and on): the arrays returned and stored must
+    have the number of samples that is requested at that moment, on a
+    monotonic depth grid holding the optimal indentation"""
+    n = 3 if run.tier == "quick" else 20
+    for i in range(n):
+        cols = base_curve(seed=400 + i, n_app=140, n_ret=50)
+        idnt = curves.make_indentation(cols)
+        n1 = [8, 10, 13][i % 3]
+        n2 = [12, 7, 9][i % 3]
+        edelta = bool(i % 2)
+        cfg = {"scan-history": i, "samples": [n1, n2], "edelta": edelta}
+        key = f"scan-history:{n1}:{n2}:{edelta}:{400 + i}"
+        payload = {"kind": "rerun"}
+        run.case(cfg, kind="scan-history")
+        try:
+            with warnings.catch_warnings():
+                warnings.simplefilter("ignore")
+                idnt.fit_model(model_key="hertz_para",
+                               optimal_fit_edelta=edelta,
+                               optimal_fit_num_samples=n1, range_x=[0, 2e-6])
+                e1, d1 = idnt.compute_emodulus_mindelta()
+                sizes = [(np.asarray(e1).size, np.asarray(d1).size, n1)]
+                idnt.fit_model(optimal_fit_num_samples=n2)
+                e2, d2 = idnt.compute_emodulus_mindelta()
+                sizes.append((np.asarray(e2).size, np.asarray(d2).size, n2))
+                dopt = float(idnt.estimate_optimal_mindelta())
+                fp = idnt.fit_properties
+                sizes.append((np.asarray(fp["optimal_fit_E_array"]).size,
+                              np.asarray(fp["optimal_fit_delta_array"]).size,
+                              n2))
+        except BaseException as e:
+            run.failing(SITE, key, f"{cfg}: raised {type(e).__name__}: {e}",
+                        payload=payload, theorem="C05_plateau_grid")
+            continue
+        why = None
+        for a, b, want in sizes:
+            if a != want or b != want:
+                why = (f"scan arrays have {a}/{b} samples while {want} are "
+                       f"requested (history of sizes: {sizes})")
+                break
+        g = np.asarray(d2)
+        if why is None and not (np.all(np.diff(g) > 0)
+                                or np.all(np.diff(g) < 0)):
+            why = "depth grid is not strictly monotone"
+        if why is None and not (g.min() <= dopt <= g.max()):
+            why = f"optimal depth {dopt} outside the scanned depths"
+        if why:
+            run.failing(SITE, key, f"{cfg}: {why}", payload=payload,
+                        theorem="C05_plateau_grid")
+
+
 def check(run):
     run.sources = common.source_digests(["src/nanite/fit.py"])
     gen_all.generate_all()
@@ -289,6 +343,7 @@ def check(run):
     check_masks(run)
     check_relative(run)
     check_plateau(run)
+    scan_history_cases(run)
     known_plateau_findings(run)
     run.rule = ("intervals with boundaries on sample abscissae, one ulp "
                 "beside them, inverted, one-sided, zero-width, empty x segment"
